@@ -25,11 +25,21 @@ extern "C" {
   /// id of the calling managed thread (0 = the thread that called vs_begin), -1 if unmanaged / inactive
   int vs_self(void);
   int vs_active(void);
+  /// Blocks the calling managed thread until pred(ctx) is true (evaluated by the scheduler whenever it
+  /// decides; it must be a pure function of state that only managed threads change). 'tag' goes into the
+  /// thread's operation trace. With no managed caller it spins on pred (must already be true).
+  void vs_wait_until(int (*pred)(void*), void* ctx, int tag);
+  /// Blocks the calling thread until no other managed thread is enabled (all others are blocked, finished
+  /// or waiting for quiescence themselves): "maximal progress of everybody else".
+  void vs_wait_quiescent(int tag);
+  /// A data nondeterminism point of the environment model: returns a value in [0,n). n <= 1 returns 0
+  /// without recording anything. Any value other than 0 counts as one deviation (like a preemption).
+  int vs_choose(int n, int tag);
 }
 
 namespace vsched
 {
-  enum OptKind { opt_thread = 0, opt_spurious = 1 };
+  enum OptKind { opt_thread = 0, opt_spurious = 1, opt_value = 2 };
 
   struct Decision
   {
@@ -45,7 +55,7 @@ namespace vsched
   };
 
   struct Event { int thread; int kind; long a; long b; };
-  enum EvKind { ev_lock = 1, ev_unlock, ev_wait, ev_wake, ev_bcast, ev_create, ev_join, ev_finish, ev_point, ev_block, ev_spurious, ev_trylock };
+  enum EvKind { ev_lock = 1, ev_unlock, ev_wait, ev_wake, ev_bcast, ev_create, ev_join, ev_finish, ev_point, ev_block, ev_spurious, ev_trylock, ev_until, ev_quiesce, ev_choose };
 
   /// stable ids for the synchronisation objects of the system under test (call between reset and begin)
   void register_mutex(void* native, int id);
